@@ -257,6 +257,10 @@ register(Contract(
         # C19: the prior / initial matrix does not change when all training points are translated (identity, random and array do
         # not look at the data; 'covariance' only through np.cov of the distinct points)
         'translation-invariant': lambda a, r: None if imm_bad(a) else z3.BoolVal(all(m.tt == 'inv' for m in imm_mats(a, r))),
+        # C20 ("an array is used AS GIVEN after a symmetry, shape and PSD check"): the matrix returned for an array option holds the numbers of
+        # that array (a copy of them)
+        'array-option-is-used-as-given': lambda a, r: None if not isinstance(a.raw('init'), VArr) else
+            (imm_mats(a, r)[0].term == a.at_entry('init').term if imm_mats(a, r)[0].term is not None else z3.BoolVal(False)),
         # C20 ("'covariance' the (pseudo-)inverse covariance of the DISTINCT training points"): what is decomposed and pseudo-inverted is
         # np.cov of the de-duplicated points of the tuples (of the points themselves for 2-D input), and nothing else
         'covariance-option-is-of-the-distinct-points': body_only(lambda a, r: None if a.init != 'covariance' else _imm_cov_clause(a)),
